@@ -24,9 +24,53 @@ def specMeaning : Obj → Option String
   | .code c => c.meaning
   | .concept d => DS.get d "CodeMeaning"
 
-/-- normalised identity of a code: retired SRT values replaced, meaning dropped -/
-def key (retired : String → Option String) (o : Obj) : Option String × Option String × Option String :=
-  mapKey retired (specValue o) (specScheme o) (specVersion o)
+/-- specification of pydicom's normalisation: a retired SRT value is replaced by its SCT successor, the
+meaning is dropped (`retired` is `snomed_mapping["SRT"].get`) -/
+def mapKey (retired : String → Option String) (value scheme version : Option String) :
+    Option String × Option String × Option String :=
+  match scheme, value with
+  | some s, some v =>
+    if s = "SRT" then
+      match retired v with
+      | some w => (some w, some "SCT", version)
+      | none => (value, scheme, version)
+    else (value, scheme, version)
+  | _, _ => (value, scheme, version)
+
+/-- normalised identity of a code; `mapping s v` is `snomed_mapping[s].get(v)` -/
+def key (mapping : String → String → Option String) (o : Obj) : Option String × Option String × Option String :=
+  mapKey (mapping "SRT") (specValue o) (specScheme o) (specVersion o)
+
+/-- **pydicom's `Code.__eq__` as translated from its source compares the normalised keys** -/
+theorem pydCodeEq_spec (mapping : String → String → Option String) (s o : PCode) :
+    pydCodeEq mapping s o =
+      decide (mapKey (mapping "SRT") s.value s.scheme s.version = mapKey (mapping "SRT") o.value o.scheme o.version) := by
+  have side : ∀ (p : PCode),
+      ((if ((p.scheme == some "SRT") && dictHas mapping "SRT" p.value) then
+          ({ value := dictGet mapping "SRT" p.value, scheme := some "SCT", meaning := some "", version := p.version } : PCode)
+        else ({ value := p.value, scheme := p.scheme, meaning := some "", version := p.version } : PCode)) : PCode) =
+      { value := (mapKey (mapping "SRT") p.value p.scheme p.version).1,
+        scheme := (mapKey (mapping "SRT") p.value p.scheme p.version).2.1, meaning := some "",
+        version := (mapKey (mapping "SRT") p.value p.scheme p.version).2.2 } := by
+    intro p
+    obtain ⟨v, sc, m, ver⟩ := p
+    cases sc with
+    | none => cases v <;> simp [mapKey, dictHas]
+    | some sc =>
+      cases v with
+      | none => simp [mapKey, dictHas]
+      | some v =>
+        by_cases hs : sc = "SRT"
+        · subst hs
+          cases hm : mapping "SRT" v <;> simp [mapKey, dictHas, dictGet, hm]
+        · simp [mapKey, hs]
+  unfold pydCodeEq
+  simp only [side s, side o]
+  generalize mapKey (mapping "SRT") s.value s.scheme s.version = ks
+  generalize mapKey (mapping "SRT") o.value o.scheme o.version = ko
+  obtain ⟨a1, a2, a3⟩ := ks
+  obtain ⟨b1, b2, b3⟩ := ko
+  by_cases h1 : a1 = b1 <;> by_cases h2 : a2 = b2 <;> by_cases h3 : a3 = b3 <;> simp [h1, h2, h3]
 
 /-- what every object made by `Code(..)`, `CodedConcept(..)`, `from_dataset`, `from_code` satisfies -/
 def Obj.wf : Obj → Prop
@@ -37,14 +81,31 @@ def Obj.wf : Obj → Prop
 instance (o : Obj) : Decidable o.wf := by
   cases o <;> simp only [Obj.wf] <;> exact inferInstance
 
-theorem attr_scheme (o : Obj) (h : o.wf) : o.attr "scheme_designator" = .ok (specScheme o) := by
+/-- what `==` needs from a concept: the two attributes `CodedConcept.__eq__` reads unconditionally exist
+(the value attributes and the version are read with a default) -/
+def Obj.readable : Obj → Prop
+  | .code _ => True
+  | .concept d => DS.has d "CodeMeaning" = true ∧ DS.has d "CodingSchemeDesignator" = true
+
+instance (o : Obj) : Decidable o.readable := by
+  cases o <;> simp only [Obj.readable] <;> exact inferInstance
+
+theorem wf_readable (o : Obj) (h : o.wf) : o.readable := by
+  cases o with
+  | code c => trivial
+  | concept d => exact ⟨h.2.1, h.2.2⟩
+
+theorem attr_scheme' (o : Obj) (h : o.readable) : o.attr "scheme_designator" = .ok (specScheme o) := by
   cases o with
   | code c => simp [Obj.attr, specScheme]
   | concept d =>
-    obtain ⟨_, _, hs⟩ := h
+    obtain ⟨_, hs⟩ := h
     simp only [DS.has, Option.isSome_iff_exists] at hs
     obtain ⟨s, hs⟩ := hs
     simp [Obj.attr, prop, propertyAttr, List.lookup, specScheme, hs]
+
+theorem attr_scheme (o : Obj) (h : o.wf) : o.attr "scheme_designator" = .ok (specScheme o) :=
+  attr_scheme' o (wf_readable o h)
 
 theorem attr_value (o : Obj) : o.attr "value" = .ok (specValue o) := by
   cases o with
@@ -60,33 +121,37 @@ theorem attr_version (o : Obj) : o.attr "scheme_version" = .ok (specVersion o) :
     simp [Obj.attr, prop, propertyAttr, List.lookup, specVersion]
     cases DS.get d "CodingSchemeVersion" <;> rfl
 
-theorem attr_meaning (o : Obj) (h : o.wf) : o.attr "meaning" = .ok (specMeaning o) := by
+theorem attr_meaning' (o : Obj) (h : o.readable) : o.attr "meaning" = .ok (specMeaning o) := by
   cases o with
   | code c => simp [Obj.attr, specMeaning]
   | concept d =>
-    obtain ⟨_, hm, _⟩ := h
+    obtain ⟨hm, _⟩ := h
     simp only [DS.has, Option.isSome_iff_exists] at hm
     obtain ⟨s, hm⟩ := hm
     simp [Obj.attr, prop, propertyAttr, specMeaning, hm]
 
+theorem attr_meaning (o : Obj) (h : o.wf) : o.attr "meaning" = .ok (specMeaning o) :=
+  attr_meaning' o (wf_readable o h)
+
 /-- `Code.__eq__(self, other)` compares the normalised keys -/
-theorem codeEq_key (retired : String → Option String) (c : Code) (o : Obj) (h : o.wf) :
+theorem codeEq_key (retired : String → String → Option String) (c : Code) (o : Obj) (h : o.readable) :
     codeEq retired c o = .ok (decide (key retired (.code c) = key retired o)) := by
-  simp only [codeEq, attr_scheme o h, attr_value o, attr_version o]
+  simp only [codeEq, pydEqOtherReads, readAttrs, attr_scheme' o h, attr_value o, attr_version o, readField, List.lookup,
+    pydCodeEq_spec]
   rfl
 
 /-- the `this` that `CodedConcept.__eq__` builds carries the concept's own value, scheme and version -/
-theorem thisOf_spec (d : DS) (h : (Obj.concept d).wf) :
+theorem thisOf_spec (d : DS) (h : (Obj.concept d).readable) :
     thisOf d = .ok ⟨specValue (.concept d), specScheme (.concept d), specMeaning (.concept d), specVersion (.concept d)⟩ := by
   have hv := attr_value (.concept d)
-  have hs := attr_scheme (.concept d) h
-  have hm := attr_meaning (.concept d) h
+  have hs := attr_scheme' (.concept d) h
+  have hm := attr_meaning' (.concept d) h
   have hver := attr_version (.concept d)
   simp only [Obj.attr] at hv hs hm hver
   simp only [thisOf, eqThisArgs, mapE, hv, hs, hm, hver, codeOfArgs]
 
 /-- **equality is decided by the normalised key**, for every mix of representations -/
-theorem objEq_key (retired : String → Option String) (a b : Obj) (ha : a.wf) (hb : b.wf) :
+theorem objEq_key' (retired : String → String → Option String) (a b : Obj) (ha : a.readable) (hb : b.readable) :
     objEq retired a b = .ok (decide (key retired a = key retired b)) := by
   cases a with
   | code c => exact codeEq_key retired c b hb
@@ -94,6 +159,10 @@ theorem objEq_key (retired : String → Option String) (a b : Obj) (ha : a.wf) (
     simp only [objEq, thisOf_spec d ha]
     rw [codeEq_key retired _ b hb]
     rfl
+
+theorem objEq_key (retired : String → String → Option String) (a b : Obj) (ha : a.wf) (hb : b.wf) :
+    objEq retired a b = .ok (decide (key retired a = key retired b)) :=
+  objEq_key' retired a b (wf_readable a ha) (wf_readable b hb)
 
 end HdVerif.Coding
 
@@ -123,7 +192,7 @@ theorem hashInput_spec (o : Obj) (h : o.wf) (s v : String) (hs : specScheme o = 
   cases o with
   | code c =>
     simp only [specScheme, specValue] at hs hv
-    simp [hashInput, concatAll, hs, hv]
+    simp [hashInput, pydHashArgs, mapE, Obj.attr, concatAll, hs, hv]
   | concept d =>
     have h1 := attr_value (.concept d)
     have h2 := attr_scheme (.concept d) h
@@ -319,5 +388,67 @@ theorem builtDS_wf (kw v s m : String) (ver : Option String)
     (Obj.concept (builtDS kw v s m ver)).wf := by
   rcases hkw with h | h | h <;> subst h <;> cases ver <;>
     simp (disch := decide) [Obj.wf, countPresent, builtDS, DS.has, DS.get, lookup_cons_ne, List.filter]
+
+end HdVerif.Coding
+
+namespace HdVerif.Coding
+open HdVerif HdVerif.Gen
+
+/-! ### mutation through the dataset's attribute setters -/
+
+theorem get_del (d : DS) (k k' : String) : DS.get (DS.del d k) k' = if k' = k then none else DS.get d k' := by
+  by_cases h : k' = k
+  · subst h
+    simp only [DS.get, DS.del, if_true]
+    induction d with
+    | nil => rfl
+    | cons e rest ih =>
+      obtain ⟨a, b⟩ := e
+      by_cases ha : a = k'
+      · subst ha; simpa [List.filter] using ih
+      · have h1 : (a != k') = true := by simpa using ha
+        have h2 : (k' == a) = false := by simpa using (fun h => ha h.symm)
+        simp [List.filter, h1, List.lookup, h2, ih]
+  · simp [DS.get, DS.del, h, lookup_filter_ne d k k' h]
+
+/-- an assignment or deletion on a coded-concept dataset -/
+inductive Op
+  | set (k v : String)
+  | del (k : String)
+
+def applyOp (d : DS) : Op → DS
+  | .set k v => DS.set d k v
+  | .del k => DS.del d k
+
+def applyOps (d : DS) (ops : List Op) : DS := ops.foldl applyOp d
+
+/-- the only mutations that can make `==` fail: deleting the meaning or the scheme designator -/
+def Op.keepsReadable : Op → Prop
+  | .set _ _ => True
+  | .del k => k ≠ "CodeMeaning" ∧ k ≠ "CodingSchemeDesignator"
+
+theorem applyOp_readable (d : DS) (op : Op) (h : (Obj.concept d).readable) (hop : op.keepsReadable) :
+    (Obj.concept (applyOp d op)).readable := by
+  obtain ⟨hm, hs⟩ := h
+  simp only [DS.has] at hm hs
+  cases op with
+  | set k v =>
+    simp only [applyOp, Obj.readable, DS.has, get_set]
+    constructor
+    · by_cases h1 : "CodeMeaning" = k <;> simp [h1, hm]
+    · by_cases h1 : "CodingSchemeDesignator" = k <;> simp [h1, hs]
+  | del k =>
+    obtain ⟨h1, h2⟩ := hop
+    simp only [applyOp, Obj.readable, DS.has, get_del]
+    exact ⟨by simp [Ne.symm h1, hm], by simp [Ne.symm h2, hs]⟩
+
+theorem applyOps_readable (ops : List Op) : ∀ (d : DS), (Obj.concept d).readable → (∀ op ∈ ops, op.keepsReadable) →
+    (Obj.concept (applyOps d ops)).readable := by
+  induction ops with
+  | nil => intro d h _; exact h
+  | cons op rest ih =>
+    intro d h hall
+    simp only [applyOps, List.foldl_cons]
+    exact ih (applyOp d op) (applyOp_readable d op h (hall op (by simp))) (fun o ho => hall o (by simp [ho]))
 
 end HdVerif.Coding
